@@ -103,7 +103,13 @@ impl tower::Service<Request<Bytes>> for NodeService {
                 panic!("handler panic requested by the scenario");
             }
             if let Some(ms) = h.get("sleep-ms").and_then(|s| s.parse::<u64>().ok()) {
-                tokio::time::sleep(Duration::from_millis(ms)).await;
+                // ticks=<n>: the handler makes progress in n steps (n awaits of ms/n each) instead of one long await
+                // (whole milliseconds each: the runtime's timers have millisecond resolution)
+                let n = h.get("ticks").and_then(|s| s.parse::<u64>().ok()).unwrap_or(1).max(1).min(ms.max(1));
+                for k in 0..n {
+                    let part = ms / n + if k < ms % n { 1 } else { 0 };
+                    tokio::time::sleep(Duration::from_millis(part)).await;
+                }
             }
             let mut resp = match h.get("resp-size").and_then(|s| s.parse::<usize>().ok()) {
                 Some(n) => Response::new(Bytes::from(body_pattern(n, id.len() as u8))),
@@ -356,7 +362,7 @@ async fn net_cmd(
             let mut req = Request::new(Bytes::from(body_pattern(size, id.len() as u8 + j as u8)))
                 .with_route(a.get("route").map(|r| String::from_utf8(unhex(r)).unwrap()).unwrap_or("/echo".into()))
                 .with_header("id", id);
-            for k in ["sleep-ms", "resp-size", "resp-hdr-size", "status", "panic"] {
+            for k in ["sleep-ms", "resp-size", "resp-hdr-size", "status", "panic", "ticks"] {
                 if let Some(v) = a.get(k) {
                     req.headers_mut().insert(k.to_string(), v.to_string());
                 }
@@ -528,7 +534,11 @@ async fn run_scenario(line: &[&str]) -> String {
             },
             "disconnect" => {
                 let (i, j): (usize, usize) = (t[1].parse().unwrap(), t[2].parse().unwrap());
-                let pid = w.nodes[&j].peer_id;
+                let pid = match w.nodes.get(&j) {
+                    Some(n) => Some(n.peer_id),
+                    None => w.adv.get(&j).and_then(|a| a.peer_id),
+                };
+                let Some(pid) = pid else { out.push("err nobody".into()); continue };
                 match w.net(i) {
                     Some(n) => match n.disconnect(pid) { Ok(()) => "ok".into(), Err(_) => "err".into() },
                     None => "err gone".into(),
